@@ -67,6 +67,37 @@ def run(repo: Repo, R: Report) -> None:
         return set()
 
     g = CFG(fn, may_raise=may_raise)
+    # ---- roles (locals are identified by what defines them, not by their names)
+    from ..pat import find, find1, match, name_of
+
+    m = find1(fn, "_PC_ = parse_pipeline_config(_CFG_, source_path=_ANY_, base_dir=_ANY_)") or find1(fn, "_PC_ = parse_pipeline_config(_CFG_)")
+    if m is None:
+        pcs = [n for n in ast.walk(fn) if isinstance(n, ast.Assign) and isinstance(n.value, ast.Call) and call_attr(n.value) == "parse_pipeline_config" and n.value.args]
+        if not pcs:
+            raise AnalysisError("_run: parse_pipeline_config(...) assignment not found")
+        PCFG, CONFIG = dotted_name(pcs[0].targets[0]), dotted_name(pcs[0].value.args[0])
+    else:
+        PCFG, CONFIG = name_of(m[1], "_PC_"), name_of(m[1], "_CFG_")
+    mi = find1(fn, f"_I_ = build_pipeline_inspection({PCFG}.nodes)")
+    INSP = name_of(mi[1], "_I_") if mi else "__missing__"
+    # --context dictionary: filled in the loop over args.contexts
+    CTX = None
+    for lp in [n for n in walk_no_nested(fn) if isinstance(n, ast.For) and dotted_name(n.iter) == "args.contexts"]:
+        for st in ast.walk(lp):
+            if isinstance(st, ast.Assign) and isinstance(st.targets[0], ast.Subscript) and isinstance(st.targets[0].value, ast.Name):
+                CTX = st.targets[0].value.id
+    # missing-key list: the `if X:` whose body lists missing keys; X = sorted(required.difference(supplied.keys()))
+    MISSING = None
+    for cand in [n for n in walk_no_nested(fn) if isinstance(n, ast.Assign) and isinstance(n.targets[0], ast.Name)]:
+        if any(isinstance(c, ast.Call) and call_attr(c) == "difference" for c in ast.walk(cand.value)) or (any(isinstance(b, ast.BinOp) and isinstance(b.op, ast.Sub) for b in ast.walk(cand.value)) and "required" in ast.unparse(cand.value)):
+            if any(isinstance(i, ast.If) and dotted_name(i.test) == cand.targets[0].id for i in walk_no_nested(fn)):
+                MISSING = cand.targets[0].id
+    EXITVAR = None
+    for r in [n for n in walk_no_nested(fn) if isinstance(n, ast.Return) and isinstance(n.value, ast.Name)]:
+        if r.value.id not in DOCUMENTED_CODES:
+            EXITVAR = r.value.id
+    if MISSING is None or EXITVAR is None or CTX is None:
+        raise AnalysisError(f"_run: roles not recognised (missing={MISSING}, exit={EXITVAR}, context={CTX})")
     ex = exec_nodes(g)
     proc = [n for n in ex if any(call_attr(c) == "process" for c in calls_in(n.ast))]
     if len(proc) != 1:
@@ -110,7 +141,7 @@ def run(repo: Repo, R: Report) -> None:
             return None
         return atom
 
-    flag_tests = ["args.validate", "args.dry_run", "pipeline_cfg.run_space.dry_run", "missing"]
+    flag_tests = ["args.validate", "args.dry_run", f"{PCFG}.run_space.dry_run", MISSING]
     for ft in flag_tests:
         holds, path, guards = returns_only_through(g, flag_atom(ft), targets=[e.id for e in ex])
         R.check(holds and guards > 0, r_gate, CLI, "_run", f"`if {ft}:` false-branch dominates execution",
@@ -121,13 +152,13 @@ def run(repo: Repo, R: Report) -> None:
                 t_succ = [t for t, lab in g.succ[n.id] if lab == "T"]
                 seen = g.reach(t_succ, blocked={t for t, lab in g.succ[n.id] if lab == "F"})
                 rets = [m for m in g.nodes if m.id in seen and m.kind == "stmt" and isinstance(m.ast, ast.Return)]
-                want_zero = ft != "missing"
+                want_zero = ft != MISSING
                 vals = {dotted_name(m.ast.value) for m in rets}
                 ok = bool(rets) and (vals == {"EXIT_SUCCESS"} if want_zero else "EXIT_SUCCESS" not in vals and vals <= set(DOCUMENTED_CODES))
                 R.check(ok, r_gate, CLI, "_run", f"`if {ft}:` exit code", f"the `{ft}` branch exits with {sorted(map(str, vals))}", n.line)
     # missing is computed from inspection.required_context_keys minus supplied keys
     r_miss = R.rule("C17-D1-missing-key-set", "missing = inspection.required_context_keys minus keys supplied by --context and the run space (def-use)", 2)
-    mv = assigned_value(fn, "missing")
+    mv = assigned_value(fn, MISSING)
     ok = False
     if len(mv) == 1:
         names = {x.id for x in ast.walk(mv[0]) if isinstance(x, ast.Name)}
@@ -140,17 +171,17 @@ def run(repo: Repo, R: Report) -> None:
             rroot = {x.id for x in ast.walk(right) if isinstance(x, ast.Name)}
             req_defs = [v for nm in lroot for v in assigned_value(fn, nm)]
             sup_defs = [v for nm in rroot for v in assigned_value(fn, nm)]
-            ok = any("required_context_keys" in ast.unparse(v) and "inspection" in ast.unparse(v) for v in req_defs) and any("ctx_dict" in ast.unparse(v) for v in sup_defs)
+            ok = any("required_context_keys" in ast.unparse(v) and INSP in {x.id for x in ast.walk(v) if isinstance(x, ast.Name)} for v in req_defs) and any(CTX in {x.id for x in ast.walk(v) if isinstance(x, ast.Name)} for v in sup_defs)
     R.check(ok, r_miss, CLI, "_run", "missing = required_external - supplied", "the missing-key gate is not (inspection's required keys) minus (supplied keys)", fn.lineno)
-    insp = assigned_value(fn, "inspection")
-    ok = any(isinstance(v, ast.Call) and call_attr(v) == "build_pipeline_inspection" and v.args and "pipeline_cfg" in ast.unparse(v.args[0]) for v in insp)
+    insp = assigned_value(fn, INSP)
+    ok = any(isinstance(v, ast.Call) and call_attr(v) == "build_pipeline_inspection" and v.args and PCFG in ast.unparse(v.args[0]) for v in insp)
     R.check(ok, r_miss, CLI, "_run", "inspection = build_pipeline_inspection(pipeline_cfg.nodes)", "the inspected nodes are not the parsed configuration's nodes", fn.lineno)
 
     # flags reach the gates: sections written from args.* are attached to config before parsing
     r_attach = R.rule("C17-D1-flags-reach-gates", "every mapping that receives a CLI-flag value (run_space dry_run / max_runs, execution, trace options) is attached to the configuration that is parsed", 3)
     def attached_at(holder: str, use_stmt: ast.AST, depth: int = 0) -> bool:
         """Every definition of *holder* reaching *use_stmt* makes it a part of `config`."""
-        if holder == "config":
+        if holder == CONFIG:
             return True
         if depth > 4:
             return False
@@ -182,15 +213,15 @@ def run(repo: Repo, R: Report) -> None:
             if not uses_args:
                 continue
             holder = t.value.id
-            if holder in ("summary", "metadata", "record", "run_space_meta", "ctx_dict"):
+            if holder == CTX or not _feeds_config(fn, holder, CONFIG):
                 continue
             n_flag_stores += 1
-            ok = attached_at(holder, a) or any(isinstance(b.targets[0], ast.Subscript) and dotted_name(b.targets[0].value) == "config" and isinstance(b.value, ast.Name) and b.value.id == holder and b.lineno > a.lineno for b in assigns)
+            ok = attached_at(holder, a) or any(isinstance(b.targets[0], ast.Subscript) and dotted_name(b.targets[0].value) == CONFIG and isinstance(b.value, ast.Name) and b.value.id == holder and b.lineno > a.lineno for b in assigns)
             R.check(ok, r_attach, CLI, "_run", norm(a), f"the flag value is written into `{holder}`, which is not (a part of) the configuration that gets parsed: the flag is silently ignored and the gate it controls stays open", a.lineno)
     if n_flag_stores == 0:
         raise AnalysisError("_run: no flag-driven configuration stores found")
     parse_call = next((c for c in calls_in(fn) if call_attr(c) == "parse_pipeline_config"), None)
-    R.check(parse_call is not None and parse_call.args and dotted_name(parse_call.args[0]) == "config", r_attach, CLI, "_run", "parse_pipeline_config(config, ...)", "the parsed object is not the merged configuration", fn.lineno)
+    R.check(parse_call is not None and parse_call.args and dotted_name(parse_call.args[0]) == CONFIG, r_attach, CLI, "_run", "parse_pipeline_config(config, ...)", "the parsed object is not the merged configuration", fn.lineno)
 
     # ---------------------------------------------------------------- D2 exit codes
     r_codes = R.rule("C17-D2-exit-codes", "EXIT_* constants carry the documented numbers; every return of _run is one of them (or exit_code); helpers exit with them", 10)
@@ -201,7 +232,7 @@ def run(repo: Repo, R: Report) -> None:
     for n in walk_no_nested(fn):
         if isinstance(n, ast.Return):
             d = dotted_name(n.value) if n.value is not None else None
-            R.check(d in DOCUMENTED_CODES or d == "exit_code", r_codes, CLI, "_run", norm(n), "return value is not an EXIT_* constant", n.lineno)
+            R.check(d in DOCUMENTED_CODES or d == EXITVAR, r_codes, CLI, "_run", norm(n), "return value is not an EXIT_* constant", n.lineno)
     ly = repo.func(CLI, "_load_yaml")
     for h in [x for x in ast.walk(ly) if isinstance(x, ast.ExceptHandler)]:
         tname = ast.unparse(h.type) if h.type is not None else ""
@@ -230,7 +261,7 @@ def run(repo: Repo, R: Report) -> None:
     # ---------------------------------------------------------------- D3 success iff all runs completed
     r_succ = R.rule("C17-D3-success-iff-all-runs", "exit_code starts as EXIT_SUCCESS and is changed only by the handlers of the run loop, each to a non-zero code; a failing run leaves the loop (no later run starts) and reaches `return exit_code` through such a handler", 4)
     pn = proc[0]
-    ec_assigns = [n for n in walk_no_nested(fn) if isinstance(n, ast.Assign) and any(isinstance(t, ast.Name) and t.id == "exit_code" for t in n.targets)]
+    ec_assigns = [n for n in walk_no_nested(fn) if isinstance(n, ast.Assign) and any(isinstance(t, ast.Name) and t.id == EXITVAR for t in n.targets)]
     inits = [a for a in ec_assigns if dotted_name(a.value) == "EXIT_SUCCESS"]
     others = [a for a in ec_assigns if a not in inits]
     R.check(len(inits) == 1, r_succ, CLI, "_run", "exit_code = EXIT_SUCCESS", "exit_code is not initialised exactly once to success", fn.lineno)
@@ -250,7 +281,7 @@ def run(repo: Repo, R: Report) -> None:
     ki = [h for h in ast.walk(fn) if isinstance(h, ast.ExceptHandler) and h.type is not None and "KeyboardInterrupt" in ast.unparse(h.type)]
     ok = bool(ki) and any(isinstance(a, ast.Assign) and dotted_name(a.value) == "EXIT_INTERRUPT" for a in ast.walk(ki[0]))
     R.check(ok, r_codes, CLI, "_run", "except KeyboardInterrupt -> EXIT_INTERRUPT", "interrupt is not mapped to the documented code", ki[0].lineno if ki else fn.lineno)
-    rt = [h for h in ast.walk(fn) if isinstance(h, ast.ExceptHandler) and h.type is not None and ast.unparse(h.type).strip("()\n ") == "Exception" and any(isinstance(a, ast.Assign) and any(dotted_name(t) == "exit_code" for t in a.targets) for a in ast.walk(h))]
+    rt = [h for h in ast.walk(fn) if isinstance(h, ast.ExceptHandler) and h.type is not None and ast.unparse(h.type).strip("()\n ") == "Exception" and any(isinstance(a, ast.Assign) and any(dotted_name(t) == EXITVAR for t in a.targets) for a in ast.walk(h))]
     ok = bool(rt) and any(isinstance(a, ast.Assign) and dotted_name(a.value) == "EXIT_RUNTIME_ERROR" for a in ast.walk(rt[0]))
     R.check(ok, r_codes, CLI, "_run", "except Exception -> EXIT_RUNTIME_ERROR", "run failure is not mapped to the documented code", rt[0].lineno if rt else fn.lineno)
 
@@ -267,3 +298,32 @@ def run(repo: Repo, R: Report) -> None:
 def _anc(n):
     from ..engine import ancestors
     return ancestors(n)
+
+
+def _feeds_config(fn: ast.AST, holder: str, config: str) -> bool:
+    """Is *holder* a mapping that is meant to become part of the configuration (it is obtained from the
+    configuration, or stored into it)?  Mappings that are unrelated to it (summaries, metadata of a run)
+    are not subject to the attachment rule."""
+    for v in assigned_value(fn, holder):
+        names = {x.id for x in ast.walk(v) if isinstance(x, ast.Name)}
+        if config in names:
+            return True
+        for nm in names:
+            if nm != holder and _feeds_config_depth(fn, nm, config, 0):
+                return True
+    for n in ast.walk(fn):
+        if isinstance(n, ast.Assign) and isinstance(n.value, ast.Name) and n.value.id == holder and any(isinstance(t, ast.Subscript) and dotted_name(t.value) == config for t in n.targets):
+            return True
+    return False
+
+
+def _feeds_config_depth(fn: ast.AST, name: str, config: str, depth: int) -> bool:
+    if depth > 3:
+        return False
+    for v in assigned_value(fn, name):
+        names = {x.id for x in ast.walk(v) if isinstance(x, ast.Name)}
+        if config in names:
+            return True
+        if any(_feeds_config_depth(fn, nm, config, depth + 1) for nm in names if nm != name):
+            return True
+    return False
